@@ -4,6 +4,7 @@
    (ii) the S machine's own fixpoints equal the same specifications through `chain_of`, so every theorem about the
         machine's predicates is a theorem about the generated code. *)
 From AV Require Import Base Machine ChainSpec ChainGen.
+From AV Require CheckpointFacts.
 
 (* case analysis on the flags of the head scope; insensitive to the order in which the source tests them *)
 Ltac flags a :=
@@ -211,6 +212,21 @@ Proof. intros H. now rewrite machine_parent_visible_eq, parent_visible_gen_eq. Q
 Corollary machine_ckif_spins_gen fuel s x :
   all_hosted (chain_of fuel s x) -> ckif_spins fuel s x = gen_ckif_spins (chain_of fuel s x).
 Proof. intros H. now rewrite machine_ckif_spins_eq, ckif_spins_gen_eq. Qed.
+
+(* F46: the resumption of a task spinning in checkpoint_if_cancelled, by the generated code: the flag says the source reads
+   the task's scope again after the yield; the machine re-evaluates the generated walk on the chain of k_cur.  With the
+   flag off (a loop that keeps the scope found first) the statement would need the unconditional RBlocked. *)
+Corollary machine_ckif_respin_gen s t fo :
+  k_ctl (tasks s t) = CYield YCkIf -> snd (incoming s t fo) = None ->
+  all_hosted (chain_of (nscope s) s (k_cur (tasks s t))) ->
+  snd (resume s t fo) =
+    if gen_ckif_restarts_from_task_scope
+    then (if gen_ckif_spins (chain_of (nscope s) s (k_cur (tasks s t))) then RBlocked else RRet 0)
+    else RBlocked.
+Proof.
+  intros Hc Hi Hh. cbn [gen_ckif_restarts_from_task_scope]. rewrite <- (machine_ckif_spins_gen _ _ _ Hh).
+  pose proof (CheckpointFacts.ckif_spin_resume s t fo Hc) as H. rewrite Hi in H. exact H.
+Qed.
 
 Corollary machine_eff_deadline_gen fuel s x :
   all_hosted (chain_of fuel s x) -> eff_deadline_from fuel s x XInf = gen_eff_deadline (chain_of fuel s x).
